@@ -130,6 +130,41 @@ extern "C" void harness_ternary_assignment_quantifier()  /* vf: bounds=inline-if
     vf_reach("end");
 }
 
+// the tree does not depend on how the tokens are separated (blanks, line breaks, block and line comments) nor on what this process parsed before
+// (a text that ended inside a comment, inside a string or with a syntax error in mid-expression)
+extern "C" void harness_separators_and_history()  /* vf: bounds=a_op1_b_op2_c_over_8x8_operator_tokens(thorough:15x15,one_per_precedence_level_and_alias)_x_6_token_separators(blank,tab,newline,CRLF,block_comment,line_comment)_x_5_histories(fresh_process,earlier_text_ending_in_an_open_comment,in_a_syntax_error,in_an_unknown_character,earlier_query_text) */
+{
+#ifdef VF_TIER_THOROUGH
+    static const int REP[] = {0, 3, 5, 7, 9, 13, 15, 16, 17, 18, 19, 20, 21, 22, 23};
+#else
+    static const int REP[] = {0, 4, 9, 13, 18, 19, 21, 23, 0, 4, 9, 13, 18, 19, 21};   // quick: 8 tokens (*, -, <, ==, &&, and, or, imply)
+#endif
+    static const char* SEP[] = {" ", "\t", "\n", "\r\n", " /* offset * / + d */ ", " // + d\n"};
+    int hist = vf_pick("!history", 5), sp = vf_pick("!separator", 6);
+#ifdef VF_TIER_THOROUGH
+    const int NREP = 15;
+#else
+    const int NREP = 8;
+#endif
+    const BinOp &o1 = BINOPS[REP[vf_pick("op1", NREP)]], &o2 = BINOPS[REP[vf_pick("op2", NREP)]];
+    // what the process has parsed before, with a builder and document of its own
+    if (hist != 0) {
+        Ctx h;
+        try {
+            h.declare(DECLS);
+            if (hist == 1) (void)h.expr("a + /* b");
+            else if (hist == 2) (void)h.expr("a + (b * ");
+            else if (hist == 3) (void)h.expr("a + @ \"b");
+            else { TigaPropertyBuilder qb(h.doc); parseProperty("A[] a < /* 1", &qb, ""); }
+        } catch (std::exception&) {}
+    }
+    Ctx cx;
+    vf_assert(cx.declare(DECLS) == 0, "declarations-accepted");
+    std::string s = SEP[sp];
+    expect(cx, "a" + s + o1.tok + s + "b" + s + o2.tok + s + "c", two(o1, o2, id("a"), id("b"), id("c")), "nesting-independent-of-separators-and-history");
+    vf_reach("end");
+}
+
 // ---- literals
 extern "C" void harness_int_literals()  /* vf: bounds=decimal_literals_prefix+2_symbolic_digits_around_2^31_and_2^32,9..13_digits,with_and_without_leading_zeros;exact_value_or_diagnostic;-2147483648_is_INT_MIN */
 {
